@@ -10,6 +10,11 @@ _counter = itertools.count(1)
 
 COMMUT = {"add", "mul", "and", "or", "xor", "eq", "ne", "clmul"}
 
+# (C17) shallow flattening of nested additions in t_addn.  Sweeping with cut
+# points needs every addition of the IR to stay a node of its own, so the
+# hash-function proofs switch it off for the duration of a run.
+ADD_FLATTEN = True
+
 
 def mask(w):
     return (1 << w) - 1
@@ -196,7 +201,7 @@ def t_addn(xs, w):
     for x in xs:
         if _c(x):
             c = (c + x) & M
-        elif x.op == "add" and len(x.args) <= 3 and len(terms) <= 6:
+        elif ADD_FLATTEN and x.op == "add" and len(x.args) <= 3 and len(terms) <= 6:
             # shallow flattening only: unbounded flattening is exponential on
             # recurrences such as the SHA-2 message schedule
             for y in x.args:
@@ -777,3 +782,119 @@ def _rebuild(t, na):
             c = f(c, x)
         na = tuple(ts) + (c & mask(t.w),)
     return _mk(t.op, na, t.w, t.aux)
+
+
+_REBUILD = None
+
+
+def rebuild(op, args, w, aux):
+    """re-create a term through the simplifying constructors"""
+    a = args
+    if op == "add":
+        return t_addn(list(a), w)
+    if op == "sub":
+        return t_sub(a[0], a[1], w)
+    if op == "mul":
+        return t_mul(a[0], a[1], w)
+    if op == "and":
+        return t_and(a[0], a[1], w)
+    if op == "or":
+        return t_or(a[0], a[1], w)
+    if op == "xor":
+        return t_xor(a[0], a[1], w)
+    if op == "shl":
+        return t_shl(a[0], a[1], w) if _c(a[1]) else _mk(op, a, w, aux)
+    if op == "lshr":
+        return t_lshr(a[0], a[1], w) if _c(a[1]) else _mk(op, a, w, aux)
+    if op == "ashr":
+        return t_ashr(a[0], a[1], w) if _c(a[1]) else _mk(op, a, w, aux)
+    if op == "zext":
+        return t_zext(a[0], w)
+    if op == "extract":
+        return t_extract(a[0], a[1], w)
+    if op == "ite":
+        return t_ite(a[0], a[1], a[2], w)
+    if op in _NEG:
+        return t_icmp(op, a[0], a[1], aux)
+    if all(_c(x) for x in a):
+        return _apply(_mk(op, a, w, aux), list(a), {})
+    return _mk(op, a, w, aux)
+
+
+def cut(root, depth, prefix="cut"):
+    """over-approximation of a term: sub-terms deeper than `depth` below the
+    root are replaced by fresh unconstrained variables (same width)."""
+    if not isinstance(root, Term):
+        return root
+    memo = {}
+
+    def go(t, d):
+        if not isinstance(t, Term):
+            return t
+        key = (t.id, d <= 0)
+        if t.op == "var":
+            return t
+        if d <= 0:
+            r = memo.get(("v", t.id))
+            if r is None:
+                r = var("%s_%d" % (prefix, t.id), t.w)
+                memo[("v", t.id)] = r
+            return r
+        r = memo.get((t.id, d))
+        if r is None:
+            r = rebuild(t.op, tuple(go(x, d - 1) for x in t.args), t.w, t.aux)
+            memo[(t.id, d)] = r
+        return r
+    import sys
+    old = sys.getrecursionlimit()
+    sys.setrecursionlimit(max(old, 10000))
+    try:
+        return go(root, depth)
+    finally:
+        sys.setrecursionlimit(old)
+
+
+def substitute(roots, mapping):
+    """rebuild terms with the sub-terms whose id is in `mapping` replaced
+    (cut points).  Iterative; returns list."""
+    memo = dict(mapping)
+    out = []
+    for r in roots:
+        if not isinstance(r, Term):
+            out.append(r)
+            continue
+        for t in topo([r]):
+            if t.id in memo:
+                continue
+            if t.op == "var":
+                memo[t.id] = t
+                continue
+            args = tuple(memo[a.id] if isinstance(a, Term) else a for a in t.args)
+            if all((x is y) or (not isinstance(x, Term) and x == y) for x, y in zip(args, t.args)):
+                memo[t.id] = t
+            else:
+                memo[t.id] = rebuild(t.op, args, t.w, t.aux)
+        out.append(memo[r.id])
+    return out
+
+
+def evaluate_all(roots, env):
+    """concrete value of every node reachable from roots: dict id -> int"""
+    memo = {}
+    for r in roots:
+        _eval(r, env, memo)
+    return memo
+
+
+def find_by_values(roots, envs, targets):
+    """locate DAG nodes by their concrete values: targets = list of tuples
+    (one value per env).  returns list of Term or None"""
+    memos = [evaluate_all(roots, e) for e in envs]
+    index = {}
+    for t in topo(roots):
+        sig = tuple(m[t.id] for m in memos)
+        index.setdefault((t.w, sig), t)
+    res = []
+    for w, sig in targets:
+        res.append(index.get((w, tuple(sig))))
+    return res
